@@ -1,5 +1,5 @@
 """C08 — a faulted worker is detected, bypassed and replaced; the accept thread never panics or spins."""
-from props.srvlib import COMMON_META, gen_scripts, make_stream, bfs_stream, bld_stream, c08_pred, has_fault
+from props.srvlib import COMMON_META, gen_scripts, make_stream, bfs_stream, bld_stream, c08_pred, c08_resume_pred, has_fault
 
 META = dict(COMMON_META)
 META.update({
@@ -26,7 +26,7 @@ META.update({
 def streams(ctx):
     n = 3000 if ctx.tier == "quick" else 80000
     cases = gen_scripts(ctx, n, ["k", "ky", "kye", "kcye", "kciye", "kdy", "kcidyse", "kdyse"], ls=(1, 2, 3))
-    return [bfs_stream(ctx, c08_pred, "dk", has_fault), make_stream("srv", cases, c08_pred,
+    return [bfs_stream(ctx, c08_pred, "dk", has_fault, guarded=c08_resume_pred), make_stream("srv", cases, c08_pred,
                         "%d generated scripts with worker faults + corpus; every snapshot compared; no panic/spin, bypass, single notice, rejoin checked" % n,
-                        has_fault),
+                        has_fault, guarded=c08_resume_pred),
             bld_stream(ctx, ("C08", "C01"), ["k", "k", "ck", "k"], 64, 1500)]
